@@ -256,6 +256,9 @@ func load(addr *Value) Value { return copyVal(*addr) }
 
 func (s Slice) at(i int) *Value {
 	s.chkOpq()
+	if s.off+i >= len(*s.arr) {
+		unsup("access beyond the materialised prefix of a huge slice (len %d)", s.len)
+	}
 	return &(*s.arr)[s.off+i]
 }
 func (s Slice) isNil() bool { return s.arr == nil && s.opq == nil }
@@ -269,11 +272,22 @@ func (s Slice) elems() []Value {
 	if s.arr == nil {
 		return nil
 	}
+	if s.off+s.len > len(*s.arr) {
+		unsup("whole-slice access to a huge slice (len %d)", s.len)
+	}
 	return (*s.arr)[s.off : s.off+s.len]
 }
 
+// hugeSlicePhys: slices longer than this are materialised only up to this many
+// cells (enough for "allocate, then fail to fill it from a short input").
+const hugeSlicePhys = 1 << 16
+
 func newSlice(n, c int, elemT types.Type) Slice {
-	arr := make([]Value, c)
+	phys := c
+	if phys > hugeSlicePhys {
+		phys = hugeSlicePhys
+	}
+	arr := make([]Value, phys)
 	for i := range arr {
 		arr[i] = zero(elemT)
 	}
